@@ -326,6 +326,9 @@ class MenuConfigState:
 
     def load_config(self) -> Tuple[bool, str]:
         msg = self.kconf.load_config()
+        # The rows were computed in __post_init__() from the Kconfig defaults; the loaded values may show or hide entries
+        self.shown = self.shown_nodes(self.cur_menu)
+        self.sel_node_i = 0
         if not os.path.exists(self.conf_filename):
             return True, msg
         return self.needs_save(), msg
